@@ -278,7 +278,7 @@ fn instantiate(r: &RouteRow, pipeline_id: &str, confusable: Option<&str>) -> Str
 struct Answer { status: u16, error: String }
 
 async fn send<F>(routes: &F, method: &str, path: &str, api: &Option<String>, adm: &Option<String>, body: Option<&serde_json::Value>) -> Option<Answer>
-where F: Filter + Clone + Send + Sync + 'static, F::Extract: warp::Reply + Send, F::Error: warp::reject::IsReject + Send {
+where F: Filter<Error = std::convert::Infallible> + Clone + Send + Sync + 'static, F::Extract: warp::Reply + Send {
     let mut req = warp::test::request().method(&method.to_uppercase()).path(path);
     if let Some(k) = api { req = req.header("x-api-key", k.as_str()); }
     if let Some(k) = adm { req = req.header("x-admin-key", k.as_str()); }
